@@ -946,7 +946,7 @@ def unit_c16(args):
                 res["dump"] = c16_dump(calls) if outcome == "ok" else outcome
                 continue
             if outcome != "ok":
-                rr, mo = model_of(m.pc)
+                rr, mo = model_of(cons + list(m.pc))
                 res["panics"].append({"what": outcome, "chars": None, "cfg": None, "lens": None, "state": args["name"],
                                       "syms": {k: mo.eval(v, model_completion=True).as_long() for k, v in syms.items()} if mo else None})
                 continue
@@ -1127,7 +1127,9 @@ def c16_native_text(exe, shape, concrete):
         lines.append(l)
     p = subprocess.run([exe], input=("\n".join(lines) + "\n").encode(), stdout=subprocess.PIPE, stderr=subprocess.PIPE, timeout=30)
     if p.returncode != 0:
-        return ["EXIT %d %s" % (p.returncode, p.stderr.decode(errors="replace")[-200:])], "\n".join(lines)
+        err = p.stderr.decode(errors="replace").splitlines()
+        msg = " ".join(l.strip() for i, l in enumerate(err) if "panicked at" in l or (i > 0 and "panicked at" in err[i - 1]))
+        return ["EXIT %d %s" % (p.returncode, msg[:300])], "\n".join(lines)
     return p.stdout.decode().splitlines(), "\n".join(lines)
 
 
